@@ -102,10 +102,14 @@ def faults_events(task, case, ctx):
     bads = {"unsorted": lambda x: x[::-1].copy(), "two_dimensional": lambda x: np.stack([x, x]), "column_vector": lambda x: x.reshape(-1, 1),
             "beyond_30000s": lambda x: np.append(x, 30000.5)}
     which = case["fault"]
+    empty = np.array([])
     for name, fn in fns:
         for side in ("ref", "est"):
             a, b = (bads[which](ref), est) if side == "ref" else (ref, bads[which](est))
             reject(ctx, "%s.%s" % (task, name), "%s(%s)" % (which, side), lambda fn=fn, a=a, b=b: fn(a, b))
+            # the same fault while the OTHER annotation is empty (a valid, scored-as-0 situation): must still be rejected
+            a, b = (bads[which](ref), empty) if side == "ref" else (empty, bads[which](est))
+            reject(ctx, "%s.%s" % (task, name), "%s(%s),other_side_empty" % (which, side), lambda fn=fn, a=a, b=b: fn(a, b))
 
 
 def _intervals_base(iv):
@@ -255,6 +259,8 @@ def faults_multipitch(task, case, ctx):
             for v, tag in ((10.0, "below_20Hz"), (6000.0, "above_5000Hz")):
                 reject(ctx, T, tag + "(est)", lambda fn=fn, v=v: fn(t, f, t, badf(v)))
                 reject(ctx, T, tag + "(ref)", lambda fn=fn, v=v: fn(t, badf(v), t, f))
+                reject(ctx, T, tag + "(est),reference_empty", lambda fn=fn, v=v: fn(np.array([]), [], t, badf(v)))
+                reject(ctx, T, tag + "(ref),estimate_empty", lambda fn=fn, v=v: fn(t, badf(v), np.array([]), []))
         elif which == "negative_frequency":
             reject(ctx, T, which + "(est)", lambda fn=fn: fn(t, f, t, badf(-220.0)))
             reject(ctx, T, which + "(ref)", lambda fn=fn: fn(t, badf(-220.0), t, f))
@@ -284,9 +290,21 @@ def faults_transcription(task, case, ctx):
     elif which == "non_positive_pitch":
         bad = ep.copy()
         bad[case["k"] % 3] = [0.0, -220.0][case["k"] % 2]
+        e_iv, e_p = np.zeros((0, 2)), np.array([])
         for name, fn in targets:
             reject(ctx, T + name, which + "(est)", lambda fn=fn: fn(ri, rp, ei, bad))
             reject(ctx, T + name, which + "(ref)", lambda fn=fn: fn(ri, bad, ei, ep))
+            if not vel:
+                # an empty reference / estimate is valid (scored 0); the fault on the other side must still be rejected
+                reject(ctx, T + name, which + "(est),reference_empty", lambda fn=fn: fn(e_iv, e_p, ei, bad))
+                reject(ctx, T + name, which + "(ref),estimate_empty", lambda fn=fn: fn(ri, bad, e_iv, e_p))
+                reject(ctx, T + name, "pitch_count(est),reference_empty", lambda fn=fn: fn(e_iv, e_p, ei, ep[:-1]))
+                reject(ctx, T + name, "pitch_count(ref),estimate_empty", lambda fn=fn: fn(ri, rp[:-1], e_iv, e_p))
+        if vel:
+            e_v = np.array([])
+            reject(ctx, T + "evaluate", which + "(est),reference_empty", lambda: transcription_velocity.evaluate(e_iv, e_p, e_v, ei, bad, ev))
+            reject(ctx, T + "evaluate", "negative_velocity(est),reference_empty", lambda: transcription_velocity.evaluate(e_iv, e_p, e_v, ei, ep, -ev))
+            reject(ctx, T + "evaluate", "velocity_count(ref),estimate_empty", lambda: transcription_velocity.evaluate(ri, rp, rv[:-1], e_iv, e_p, e_v))
     elif which in IV_BADS:
         bad = IV_BADS[which](ei)
         bp = ep if len(bad) == 3 or bad.ndim == 1 else np.append(ep, 440.0)
@@ -294,6 +312,8 @@ def faults_transcription(task, case, ctx):
             if vel and len(bp) != 3:
                 continue
             reject(ctx, T + name, which + "(est)", lambda fn=fn: fn(ri, rp, bad, bp))
+            if not vel:
+                reject(ctx, T + name, which + "(est),reference_empty", lambda fn=fn: fn(np.zeros((0, 2)), np.array([]), bad, bp))
         if not vel:
             for name, fn in (("onset_precision_recall_f1", transcription.onset_precision_recall_f1), ("offset_precision_recall_f1", transcription.offset_precision_recall_f1)):
                 reject(ctx, T + name, which + "(est)", lambda fn=fn: fn(ri, bad))
@@ -348,6 +368,8 @@ def faults_pattern(task, case, ctx):
         reject(ctx, T, "pattern_without_occurrence(ref)", lambda fn=fn: fn(empty_pat, good))
         reject(ctx, T, "note_not_a_pair(est)", lambda fn=fn: fn(good, triple))
         reject(ctx, T, "note_not_a_pair(ref)", lambda fn=fn: fn(single, good))
+        reject(ctx, T, "note_not_a_pair(est),reference_empty", lambda fn=fn: fn([], triple))
+        reject(ctx, T, "pattern_without_occurrence(ref),estimate_empty", lambda fn=fn: fn(empty_pat, []))
 
 
 def faults_alignment(task, case, ctx):
